@@ -106,8 +106,18 @@ def gen_recipe(rng):
     elif rng.random() < 0.08:
         names[-1] = "_T"                  # one leading underscore: a visible table
         feats.add("underscore_table")
+    if rng.random() < 0.12:                # two tables whose names differ only in case (tables are case-sensitive)
+        plain = [x for x in names if len(x) == 1]
+        if len(plain) >= 2:
+            names[names.index(plain[1])] = plain[0].lower()
+            feats.add("case_twin_tables")
     rng.shuffle(names)
     shape, edges = gen_graph(rng, names)
+    if "case_twin_tables" in feats and len(names) >= 3 and rng.random() < 0.7:
+        # the twins at both ends of a cycle: one is loaded early, the other late
+        up = next(x for x in names if len(x) == 1 and x.isupper() and x.lower() in names)
+        other = next(x for x in names if x not in (up, up.lower()))
+        edges = sorted(set(edges) | {(other, up), (up, other)})
     feats.add("shape_" + shape)
 
     order = names[:]                       # order of the top-level templates
@@ -120,6 +130,8 @@ def gen_recipe(rng):
         if cnt == 0:
             feats.add("count0")
         nick = ("n" + t.strip("_").lower()) if rng.random() < 0.3 else None
+        if nick and len(t) == 1 and t.islower():
+            nick = "nn" + t
         if t == "_T":
             nick = None
         tpls[t] = {"table": t, "nick": nick, "once": once, "count": cnt, "ukey": None, "fields": [], "friends": []}
